@@ -1,0 +1,25 @@
+//go:build verif
+
+package cloc
+
+// Contracts checked by /verif (vcgo). Comment-only: no executable code.
+// C16: VCS / IDE / report directories are skipped; the table has one row per report file's directory.
+
+//@ spec Ignored(b string) bool := b == ".git" || b == ".svn" || b == ".hg" || b == ".idea" || b == "coca_reporter"
+
+//@ func IsIgnoreDir
+//@ ensures result <==> Ignored(baseName)
+//@ loop 1 invariant len(dirs) == 5 && dirs[0] == ".git" && dirs[1] == ".svn" && dirs[2] == ".hg" && dirs[3] == ".idea" && dirs[4] == "coca_reporter"
+//@ loop 1 invariant forall j int :: {dirs[j]} 0 <= j && j < #i ==> dirs[j] != baseName
+
+//@ spec FileDirIn(fs []string, n int, d string) bool := exists j int :: 0 <= j && j < n && Dir(fs[j]) == d
+
+// one row per directory named by the report files, under a header naming the languages
+//@ func ConvertToCsv
+//@ ensures len(result) >= 1 && IsHeadRow(result[0], keys)
+//@ ensures forall r int :: {result[r]} 1 <= r && r < len(result) ==> FileDirIn(outputFiles, len(outputFiles), result[r][0]) && len(result[r]) == 2 + len(keys)
+//@ ensures forall j int :: {outputFiles[j]} 0 <= j && j < len(outputFiles) ==> (exists r int :: 1 <= r && r < len(result) && result[r][0] == Dir(outputFiles[j]))
+//@ ensures forall r1 int, r2 int :: {result[r1], result[r2]} 1 <= r1 && r1 < r2 && r2 < len(result) ==> result[r1][0] != result[r2][0]
+//@ loop 2 invariant languageMap != nil
+//@ loop 2 invariant forall d string :: {d in languageMap} (d in languageMap) <==> FileDirIn(outputFiles, #i, d)
+//@ loop 2 invariant forall j int :: {outputFiles[j]} 0 <= j && j < #i ==> (Dir(outputFiles[j]) in languageMap)
